@@ -80,7 +80,9 @@ func scratchDir() string {
 			panic(err)
 		}
 	})
-	d := filepath.Join(scratchRoot, fmt.Sprintf("d%d", scratchSeq.Add(1)))
+	// spread over 256 parent directories: concurrent mkdir/unlink in one directory serialise on its lock
+	n := scratchSeq.Add(1)
+	d := filepath.Join(scratchRoot, fmt.Sprintf("p%d", n%256), fmt.Sprintf("d%d", n))
 	if err := os.MkdirAll(d, 0o755); err != nil {
 		panic(err)
 	}
@@ -118,6 +120,18 @@ var (
 	sqliteInitErr error
 )
 
+func ensureSqliteInit() error {
+	sqliteInit.Do(func() {
+		dir := "/verif/.cache/wazero-kvseq"
+		os.MkdirAll(dir, 0o755)
+		sqliteInitErr = sqlite3.Initialize(dir)
+	})
+	if sqliteInitErr != nil {
+		return fmt.Errorf("sqlite3.Initialize: %w", sqliteInitErr)
+	}
+	return nil
+}
+
 func newBackend(name string, h chord.HashFn) (*backend, error) {
 	b := &backend{name: name, hash: h}
 	switch name {
@@ -132,13 +146,8 @@ func newBackend(name string, h chord.HashFn) (*backend, error) {
 	case "sqlite":
 		// as cmd/server does: compiler runtime with an on-disk compilation cache (worker
 		// processes then start in milliseconds)
-		sqliteInit.Do(func() {
-			dir := "/verif/.cache/wazero-kvseq"
-			os.MkdirAll(dir, 0o755)
-			sqliteInitErr = sqlite3.Initialize(dir)
-		})
-		if sqliteInitErr != nil {
-			return nil, fmt.Errorf("sqlite3.Initialize: %w", sqliteInitErr)
+		if err := ensureSqliteInit(); err != nil {
+			return nil, err
 		}
 		b.dir = scratchDir()
 		kv, err := sqlite3.New(sqlite3.Config{Logger: nopLogger, HashFn: h, DataDir: b.dir})
